@@ -24,6 +24,9 @@ Element models (doc/shortcircuit/voltage_source.rst, branch_elements.rst, IEC 60
 * gen:       Z = K_G * (rdss_ohm + j * xdss_pu * vn_kv^2 / sn_mva), K_G = Un/vn_kv * c_max / (1 + xdss_pu * sin(phi))
 * motor:     (case "max" only) Z = 1/lrc_pu * vn_kv^2 / S_rM, S_rM = pn_mech_mw / (efficiency_n/100 * cos_phi_n),
              X = Z / sqrt(1 + rx^2), R = rx * X
+* sgen (generator_type "async", current_source False): asynchronous machine (doc/shortcircuit/current_source.rst,
+             voltage_source.rst "Asynchronous Motor"): Z = 1/lrc_pu * Un^2 / sn_mva with Un = rated voltage of the bus,
+             X = Z / sqrt(1 + rx^2), R = rx * X
 * sgen (full converter): ideal current source, no admittance; case "max" only; I_kC = k * sn_mva / (sqrt(3) * Un) injected
              with the angle of the driving-point impedance at its connection bus (doc/shortcircuit/current_source.rst),
              contribution at fault bus j: I''kII = |1/(Z_jj + Z_fault) * sum_m Z_jm * I_kC,m| (doc/shortcircuit/ikss.rst)
@@ -155,6 +158,16 @@ class RefSC:
                 s_rm = float(m.at[i, "pn_mech_mw"]) / (float(m.at[i, "efficiency_n_percent"]) / 100.0 * float(m.at[i, "cos_phi_n"]))
                 z = 1.0 / float(m.at[i, "lrc_pu"]) * float(m.at[i, "vn_kv"]) ** 2 / s_rm
                 shunt("motor", i, int(m.at[i, "bus"]), _rx_split(z, float(m.at[i, "rx"])), False)
+
+        # sgens modelled as asynchronous machines
+        sg = net.sgen
+        if len(sg) and "generator_type" in sg.columns:
+            for i in sg.index:
+                if not sg.at[i, "in_service"] or sg.at[i, "generator_type"] != "async":
+                    continue
+                b = int(sg.at[i, "bus"])
+                z = 1.0 / float(sg.at[i, "lrc_pu"]) * self.vn[b] ** 2 / float(sg.at[i, "sn_mva"])
+                shunt("async", i, b, _rx_split(z, float(sg.at[i, "rx"])), False)
 
         # lines
         ln = net.line
@@ -306,7 +319,7 @@ class RefSC:
         inj = {}
         sg = net.sgen
         for i in sg.index:
-            if not sg.at[i, "in_service"]:
+            if not sg.at[i, "in_service"] or ("current_source" in sg.columns and not sg.at[i, "current_source"]):
                 continue
             b = int(sg.at[i, "bus"])
             k = self.node_of(b)
